@@ -344,10 +344,20 @@ def compare_variant(sc, base_blocks, var_blocks, p, nins):
         if kinds:
             return p - 1, kinds, det, True
     for k in range(p, len(sc.ops)):
+        if sc.ops[k][0] != "N" and _names(base_blocks[k]["calllog"]) != _names(var_blocks[k + nins]["calllog"]):
+            # Fail(k)/Crash(k) counts the adapter calls of the request; here the request makes a different sequence of
+            # calls in the two runs (typically: the perturbed run has to load the topic first, because the idle unload
+            # removed a topic that had stayed loaded without sessions), so the SAME fault plan hits a different call:
+            # the two runs are no longer the same experiment, nothing after this point is comparable
+            return None
         kinds, det = diff_kinds(base_blocks[k], var_blocks[k + nins], sc.ops[k][1] in QUERIES)
         if kinds:
             return k, kinds, det, False
     return None
+
+
+def _names(calllog):
+    return [c.split("!")[0] for c in calllog.split()]
 
 
 def attribute(sc, views, fails, p, k, kinds, base_blocks, var_blocks, nins, during):
